@@ -49,6 +49,14 @@ def run_witness(w):
                 n = len([e for e in ev if e.startswith(chk['value'])])
                 if n != chk['count']: bad = True; why.append('%d events with prefix %r, required %d' % (n, chk['value'], chk['count']))
         return {'events': ev, 'violates': bad, 'why': why, 'required': w.get('required')}
+    if kind == 'hang':
+        import subprocess
+        try:
+            r = subprocess.run([replaytool.REPLAY_BIN], input='\n'.join(w['lines']) + '\n', capture_output=True, text=True, timeout=10)
+            return {'violates': False, 'finished': True, 'required': w.get('required')}
+        except subprocess.TimeoutExpired as e:
+            out = (e.stdout.decode() if isinstance(e.stdout, bytes) else (e.stdout or ''))
+            return {'violates': True, 'finished': False, 'output_before_hang': [l for l in out.split('\n') if l][-4:], 'required': w.get('required')}
     if kind == 'history':
         import refmodel
         r = refmodel.run_history(_dec(w['ops']))
@@ -172,4 +180,19 @@ def gen_refmodel(pid, f):
         if r:
             return {'kind': 'history', 'ops': _enc(h), 'what': r['why'], 'required': 'every step of the history agrees with the reference model of the property statements (tools/refmodel.py)',
                     'first_mismatch_step': r['step'], 'session_lines': r['lines'], 'observed': r['observed']}
+    return None
+
+# C16: a command that does not return.  The session is run under a watchdog; not finishing is the witness.
+@generator(r'kani/store_remove_if|ownership\.|no_call_under_guard')
+def gen_hang(pid, f):
+    V = b'v' * 100
+    scenarios = [
+        ['policy random 300'] + ['feed ' + f_set(b'k%d' % i, V).hex() for i in range(6)],                       # stores that trigger the eviction sweep
+        ['feed ' + f_set(b'k', V).hex(), 'feed ' + f_set(b'k', V, cas=77).hex(), 'feed ' + f_set(b'k', V, cas=1).hex()],   # CAS mismatch / match on a present key
+        ['feed ' + f_set(b'k', V, exp=1).hex(), 'tick 5', 'feed ' + f_key(0, b'k').hex(), 'feed ' + f_flush().hex(), 'feed ' + f_flush(5).hex()],
+    ]
+    for lines in scenarios:
+        w = {'kind': 'hang', 'lines': lines, 'required': 'every command returns (watchdog: the whole session finishes within 10 s)', 'what': 'a command of this session does not return (deadlock or endless loop)'}
+        if run_witness(w)['violates']:
+            return w
     return None
